@@ -83,11 +83,11 @@ PROPS["C04"] = dict(
 
 PROPS["C06"] = dict(
     level="proof",
-    verus=["c04_partition", "c10_engine", "c02_regex", "c01_index", "c08_wire", "c05_optimizer", "c13_store"],
+    verus=["c04_partition", "c10_engine", "c02_regex", "c01_index", "c08_wire", "c05_optimizer", "c13_store", "c08_wiring"],
     labels=["C06.", "C07.engine.", "C10.engine.ok_replaces_rules", "C07.tags_with_set.", "C02.regex.make.function_of_inputs", "C02.regex.compile.function_of_inputs", "C01.index.",
-            "C08.wire.roundtrip_fields", "C08.wire.ser_fields", "C08.wire.de_fields", "C05.fusion.", "C13.engine.", "C13.store."] + MASK,
+            "C08.wire.roundtrip_fields", "C08.wire.ser_fields", "C08.wire.de_fields", "C05.fusion.", "C13.engine.", "C13.store.", "C08.to_wire.", "C08.from_wire."] + MASK,
     kani=[],
-    witness=["c06_cache.rs", "c07_tags.rs", "c05_equiv.rs"],
+    witness=["c06_cache.rs", "c07_tags.rs", "c05_equiv.rs", "c08_roundtrip.rs"],
     trusted=["NetworkFilterList::add_filter appends to the rules held (C01 units)", "regex cache (unit c02_regex, two R7 lifts of the arms of `match self.map.entry(key)` in RegexManager::matches): the Entry API itself is outside the contracts - that `key` selects this rule's entry, VacantEntry::insert hands back the stored value, cleanup() only ever sets a held regex to None; whether a pattern text compiles and whether a compiled regex matches are functions of the text and flags (uninterpreted); usage counters do not overflow",
              "the cache invariant (a held regex was compiled from the filter that owns the key = its address) is a precondition of the arms and re-established by them; it survives the life of a Blocker because the cache is emptied whenever filters are freed and reallocated: proved for Blocker::optimize and tags_with_set (unit c04_partition, R6 lift of `self.borrow_regex_manager().clear()` to a call on the owned cell), Engine::deserialize installs a new Blocker with a new manager; that nothing else frees a queried filter is not mechanised"],
     assumptions=[],
@@ -116,7 +116,7 @@ PROPS["C01"] = dict(
     level="proof",
     verus=["c01_tokenizer", "c01_get_tokens", "c01_index", "c01_lookup", "c04_partition", "c04_precedence", "c01_tok_sound", "c05_optimizer"],
     labels=["C01.", "C04.new.", "C04.check.", "C05.key.", "C05.fusion."] + MASK,
-    witness=["c01_linear_scan.rs"],
+    witness=["c01_linear_scan.rs", "c07_tags.rs"],
     kani=[],
     trusted=["per-rule matcher uninterpreted (C02/C03)", "probe sequence of a request (iterator chain) materialised (R5)",
              "seahash (uninterpreted), char::is_alphanumeric (uninterpreted token alphabet)",
